@@ -288,6 +288,14 @@ class Classifier:
             return self.space(t.args[0], kc, depth + 1)
         if op == "binop" and t.name in ("+", "-") and t.args[1].op == "const":
             return self.space(t.args[0], kc, depth + 1)
+        if op == "binop" and t.name in ("+", "-"):
+            # an index shifted by a scalar offset keeps its (global) numbering
+            l = self.space(t.args[0], kc, depth + 1)
+            r = t.args[1]
+            scalar = r.op == "sub" and r.args[1].op == "const" and isinstance(r.args[1].name, int)
+            if l is not None and scalar:
+                return Sp(l.s, l.sentinel, "shifted by an offset")
+            return None
         if op in ("list", "tuple") and t.args:
             sp = [self.space(x, kc, depth + 1) for x in t.args]
             if all(x is not None for x in sp) and all(x.s == sp[0].s for x in sp):
